@@ -69,13 +69,16 @@ Viol(pre, a, res, post, ln) ==
       Here       == IF a.a = "Tick" THEN "?" ELSE a.c
   IN
   \* ---- C30 conservation ------------------------------------------------------------------
-       If(~I_Conservation(post), "C30", "I_Conservation")
+       \* (a genesis export / import that loses packet state is C44's subject -- KF-C44-1 -- and ends the walk: the packet
+       \*  statuses read after it no longer say what is in flight)
+       If(a.a # "ExportImport" /\ ~I_Conservation(post), "C30", "I_Conservation")
   \cup If(~(\A c \in Chains : \A D \in (DOMAIN pre.sup[c]) \cup (DOMAIN post.sup[c]) :
               IsNative(D) /\ ~(a.a = "Fund" /\ a.c = c /\ D = Dn(<<>>, a.base)) => Sup(post, c, D) = Sup(pre, c, D)),
           "C30", "native-supply-constant")
   \cup If(Rejected /\ ~AllSame, "C30", "rejected-message-moves-nothing")
   \cup If(a.a = "Recv" /\ res = "ok" /\ postAck = "err" /\ ~AllSame, "C30", "failed-receive-moves-nothing")
   \cup If(~NoNegative(post), "C30", "no-negative-balance")
+  \cup If(~I_SupplyIsSum(post), "C30", "supply-is-sum-of-balances")
   \cup If(a.a = "Transfer" /\ res = "ok"
           /\ ~(/\ NewKeys = { <<a.e, pre.ns[a.e]>> }
                /\ \A q \in NewKeys :
@@ -130,6 +133,10 @@ Viol(pre, a, res, post, ln) ==
           /\ ~(\A c \in Chains : Decreased(pre, post, c) \subseteq
                   (IF c = a.c /\ HasP /\ ~Returning(p.denom, p.e) THEN {EscAcct(p.e)} ELSE {})),
           "C49", "refund-debits-only-the-channel-escrow")
+  \* ---- C44 genesis export / import (diagnostic in this family) ------------------------------
+  \cup If(a.a = "ExportImport" /\ res # "ok", "C44", "export-import-succeeds")
+  \cup If(a.a = "ExportImport" /\ ~(AllSame /\ post.par = pre.par /\ post.ns = pre.ns), "C44", "export-import-keeps-transfer-state")
+  \cup If(a.a = "ExportImport" /\ post.pk # pre.pk, "C44", "export-import-keeps-packet-status")
   \* ---- harness sanity --------------------------------------------------------------------
   \cup If(res = "panic", "X", "harness-panic")
   \cup If(~(\A c \in Chains : c # Here => BankSame(pre, post, c) /\ post.reg[c] = pre.reg[c] /\ post.par[c] = pre.par[c]),
